@@ -28,7 +28,7 @@ type ChaosIn struct {
 	Mp       int    `json:"mp"`
 	Qlen     int    `json:"qlen"`
 	Nids     int    `json:"nids"`
-	Mode     string `json:"mode"`    // close-a close-b close-both cut overflow connstorm
+	Mode     string `json:"mode"`    // close-a close-b close-both cut overflow connstorm rdeadline
 	Closers  int    `json:"closers"` // concurrent closers at the failure
 	FaultAt  int    `json:"fault_at"`
 	CutExtra int    `json:"cut_extra"`
@@ -100,6 +100,10 @@ func RunChaos(in ChaosIn) ChaosObs {
 	wait := time.Duration(in.WaitMs) * time.Millisecond
 	taps := [2]*c10.Tap{c10.NewTap(ca), c10.NewTap(cb)}
 	ms := [2]mux.Mux{}
+	if in.Mode == "rdeadline" {
+		// trunk writes go out in two halves, so the peer's reader is usually inside a frame
+		taps[0].Dribble, taps[1].Dribble = 300*time.Microsecond, 300*time.Microsecond
+	}
 	for e := 0; e < 2; e++ {
 		ms[e] = mux.Multiplex(taps[e], mux.WithReadQueueLength(in.Qlen), mux.WithBlockedRead())
 	}
@@ -244,6 +248,21 @@ func RunChaos(in ChaosIn) ChaosObs {
 			// if the writers finish before that many bytes were written, cut where the
 			// stream stands (otherwise nothing would ever fail and the readers wait for ever)
 			go func() { wwg.Wait(); t.CutAfter(0) }()
+		case "rdeadline":
+			// a TRANSIENT trunk fault: the read deadline of one end's trunk expires (a few times)
+			// and is cleared again, while frames are in flight — usually half way through a frame
+			// (see Dribble). Whatever the mux makes of it (the pinned code fails stop), what the
+			// readers get must stay a prefix of what was sent. The exchange then ends with an
+			// orderly close once the writers are done.
+			raw := []net.Conn{ca, cb}[int(in.Seed)&1]
+			br := rand.New(rand.NewSource(in.Seed*31 + 7))
+			for b := 0; b < 1+in.Closers%4; b++ {
+				raw.SetReadDeadline(time.Now().Add(-time.Second))
+				time.Sleep(time.Duration(200+br.Intn(1500)) * time.Microsecond)
+				raw.SetReadDeadline(time.Time{})
+				time.Sleep(time.Duration(br.Intn(1500)) * time.Microsecond)
+			}
+			go func() { wwg.Wait(); time.Sleep(20 * time.Millisecond); ms[0].Close() }()
 		case "overflow":
 			// readers are slow, writers have no credits. Should no queue have overflowed by the
 			// time all writers are done, end the exchange with an orderly close.
@@ -365,7 +384,7 @@ func RunChaos(in ChaosIn) ChaosObs {
 }
 
 func RandomChaos(r *rand.Rand, mp int, i int) c10.Job {
-	modes := []string{"close-a", "close-b", "close-both", "cut", "overflow", "connstorm"}
+	modes := []string{"close-a", "close-b", "close-both", "cut", "overflow", "connstorm", "rdeadline"}
 	in := ChaosIn{Kind: "chaos", Mp: mp, Mode: modes[i%len(modes)],
 		Qlen: []int{1, 2, 4, 16, 256}[r.Intn(5)], Nids: 1 + r.Intn(8), Closers: 1 + r.Intn(16),
 		Writes: 40 + r.Intn(200), MaxLen: 40, Seed: r.Int63n(1 << 30), WaitMs: 8000}
@@ -374,6 +393,15 @@ func RandomChaos(r *rand.Rand, mp int, i int) c10.Job {
 	in.CutExtra = r.Intn(200)
 	if in.Mode == "overflow" && in.Qlen > 16 {
 		in.Qlen = 16
+	}
+	if in.Mode == "rdeadline" {
+		// fewer, larger writes: the fault should meet a frame half way through its payload
+		in.Writes = 20 + r.Intn(40)
+		in.MaxLen = 2000
+		if in.Nids > 4 {
+			in.Nids = 1 + in.Nids%4
+		}
+		in.FaultAt = r.Intn(in.Writes*in.Nids/2 + 1)
 	}
 	return c10.Job{ID: fmt.Sprintf("chaos-%d-%s", i, in.Mode), In: in}
 }
